@@ -18,3 +18,27 @@ pub fn run(args: &[String]) {
     println!("{:>4}..{:<4} {:<28} match={:?} len={:?}", n.range().start, n.range().end, n.kind(), m.map_err(|_| "PANIC"), l.map_err(|_| "PANIC"));
   }
 }
+
+/// `vh nav <lang> <file> <start> <end>` — debugging aid: siblings of the node with that range
+pub fn nav(args: &[String]) {
+  let lang: SupportLang = args[0].parse().expect("lang");
+  let src = std::fs::read_to_string(&args[1]).expect("file");
+  let (s, e): (usize, usize) = (args[2].parse().unwrap(), args[3].parse().unwrap());
+  let sg = lang.ast_grep(&src);
+  for n in sg.root().dfs().filter(|n| n.range().start == s && n.range().end == e) {
+    println!("node {}..{} {} id={}", s, e, n.kind(), n.node_id());
+    if let Some(p) = n.parent() {
+      println!(" parent {}..{} {} children:", p.range().start, p.range().end, p.kind());
+      for c in p.children() {
+        println!("   {}..{} {} named={} missing={} id={}", c.range().start, c.range().end, c.kind(), c.is_named(), c.get_ts_node().is_missing(), c.node_id());
+      }
+      let mut cur = p.get_ts_node().walk();
+      let r = cur.goto_first_child_for_byte(n.range().start as u32);
+      println!(" goto_first_child_for_byte({}) = {:?} -> {}..{} {}", n.range().start, r, cur.node().start_byte(), cur.node().end_byte(), cur.node().kind());
+    }
+    println!(" prev chain: {:?}", { let mut v = vec![]; let mut c = n.prev(); while let Some(x) = c { v.push((x.range().start, x.range().end, x.kind().to_string(), x.node_id())); c = x.prev(); } v });
+    println!(" prev_all:   {:?}", n.prev_all().map(|x| (x.range().start, x.range().end, x.kind().to_string(), x.node_id())).collect::<Vec<_>>());
+    println!(" next chain: {:?}", { let mut v = vec![]; let mut c = n.next(); while let Some(x) = c { v.push((x.range().start, x.range().end)); c = x.next(); } v });
+    println!(" next_all:   {:?}", n.next_all().map(|x| (x.range().start, x.range().end)).collect::<Vec<_>>());
+  }
+}
